@@ -27,7 +27,7 @@ abbrev Bytes := List Nat
 
 inductive ErrKind where
   | fileType | version | versionMismatch | checksumMismatch | headerLen | fnIdent | fnChecksum
-  | edgeCount | short | blockNo
+  | edgeCount | short | blockNo | recordLen
 deriving DecidableEq, Repr
 
 inductive Site where
@@ -144,16 +144,17 @@ def insertDest (arcs : List Arc) (b : Block) (id dst : Nat) : Block :=
   let keys := b.destination.map fun e => (arcs.getD e default).dst
   { b with destination := insertAt b.destination (bsearchPos keys dst) id }
 
-/-- one iteration of the loop of `read_edges` (reader.rs 485-506); `src < blocks.len()` was
-established by the caller (`blocks[block_no].destination.reserve`). -/
+/-- one iteration of the loop of `read_edges`; `src < blocks.len()` was established by the
+caller; a destination block number out of range is an error ("Unexpected destination block
+number"). -/
 def addArc (f : Func) (src dst flags : Nat) : Outcome Func :=
-  let id := f.arcs.length
-  let arcs := f.arcs ++ [⟨src, dst, flags⟩]
-  let blocks := modifyAt (fun b => insertDest arcs b id dst) f.blocks src
-  if dst < blocks.length then
+  if dst < f.blocks.length then
+    let id := f.arcs.length
+    let arcs := f.arcs ++ [⟨src, dst, flags⟩]
+    let blocks := modifyAt (fun b => insertDest arcs b id dst) f.blocks src
     ok { f with arcs := arcs
                 blocks := modifyAt (fun b => { b with source := b.source ++ [id] }) blocks dst }
-  else crash .idxBlock
+  else err .blockNo
 
 /-! ### gcno records (the byte layer produces these) -/
 
@@ -168,6 +169,7 @@ inductive NRec where
   | arcs (src : Nat) (as : List (Nat × Nat))
   | lines (blk : Nat) (items : List LineItem)
   | short                   -- the buffer ends inside this record (`?` on a failed read)
+  | crash (s : Site)        -- the byte reader panics here (all-NUL string, `count - 1` underflow)
 deriving DecidableEq, Repr
 
 /-- the loop of `read_lines`: `must_take` follows the last file name seen -/
@@ -191,6 +193,7 @@ def replaceLast {α : Type} : List α → α → List α
 def buildStep (g : Notes) (r : NRec) : Outcome Notes :=
   match r with
   | .short => err .short
+  | .crash s => crash s
   | .func ident ls cs name file st en =>
     ok { g with funcs := g.funcs ++ [{ ident := ident, startLine := st, endLine := en,
                                         lineChecksum := ls, cfgChecksum := cs,
@@ -205,21 +208,17 @@ def buildStep (g : Notes) (r : NRec) : Outcome Notes :=
     match g.funcs.getLast? with
     | none => ok g
     | some f =>
-      if src ≤ f.blocks.length then
-        if src = f.blocks.length then crash .idxBlock
-        else
-          (Outcome.foldl (fun f (df : Nat × Nat) => addArc f src df.1 df.2) f as).bind fun f' =>
-            ok { g with funcs := replaceLast g.funcs f' }
+      if src < f.blocks.length then
+        (Outcome.foldl (fun f (df : Nat × Nat) => addArc f src df.1 df.2) f as).bind fun f' =>
+          ok { g with funcs := replaceLast g.funcs f' }
       else err .blockNo
   | .lines blk items =>
     match g.funcs.getLast? with
     | none => ok g
     | some f =>
-      if blk ≤ f.blocks.length then
-        if blk = f.blocks.length then crash .idxBlock
-        else
-          let f' : Func := { f with blocks := modifyAt (takeLines g.version f true items) f.blocks blk }
-          ok { g with funcs := replaceLast g.funcs f' }
+      if blk < f.blocks.length then
+        let f' : Func := { f with blocks := modifyAt (takeLines g.version f true items) f.blocks blk }
+        ok { g with funcs := replaceLast g.funcs f' }
       else err .blockNo
 
 def build (version checksum : Nat) (recs : List NRec) : Outcome Notes :=
@@ -247,7 +246,10 @@ inductive DRec where
   | func (len ident lineSum cfgSum : Nat)   -- `len` = record length in words
   | arcs (len : Nat) (vals : List Nat)      -- `vals` = the counters present in the record
   | other                                   -- summaries and unknown tags (skipped)
-  | short                                   -- the buffer ends inside or right after this record
+  | fail (k : ErrKind)                      -- the byte reader fails here: `short` = the buffer ends
+                                            -- inside or right after this record, `recordLen` = the
+                                            -- record is shorter than its content
+  | crash (s : Site)                        -- the byte reader panics here
 deriving DecidableEq, Repr
 
 structure Gcda where
@@ -304,7 +306,8 @@ def goRecs (g : Notes) : Option Nat → List DRec → State → Outcome State
           (accArcs f.blocks.length 0 f.arcs (st i) vs).bind fun c =>
             goRecs g cur rest (st.set i c)
   | cur, .other :: rest, st => goRecs g cur rest st
-  | _, .short :: _, _ => err .short
+  | _, .fail k :: _, _ => err k
+  | _, .crash s :: _, _ => crash s
 
 /-- `read_gcda`: version and checksum guards, then the records -/
 def addGcda (g : Notes) (st : State) (d : Gcda) : Outcome State :=
